@@ -3,6 +3,7 @@
 package main
 
 import (
+	"go/ast"
 	"go/format"
 	"go/token"
 	"encoding/json"
@@ -187,6 +188,20 @@ func dumpPaths(p *Prog, key string) {
 		return
 	}
 	fl := p.FlowOf(fn)
+	if n := os.Getenv("COERLINT_DUMPLIT"); n != "" {
+		// dump the n-th function literal of the function instead
+		k, _ := strconv.Atoi(n)
+		var lits []*ast.FuncLit
+		ast.Inspect(fn.Decl.Body, func(x ast.Node) bool {
+			if l, ok := x.(*ast.FuncLit); ok {
+				lits = append(lits, l)
+			}
+			return true
+		})
+		if k < len(lits) {
+			fl = p.FlowOfLit(lits[k])
+		}
+	}
 	fmt.Println(fl.CFG.Format(p.Fset))
 	paths, ok := fl.Paths()
 	fmt.Println("paths:", len(paths), "complete:", ok)
@@ -207,6 +222,9 @@ func dumpPaths(p *Prog, key string) {
 				}
 			case EvBranch:
 				s = fmt.Sprintf("%s tag=%s taken=%v", ExprStr(e.Cond), ExprStr(e.Tag), e.Taken)
+				if e.CondVal != nil {
+					s += " condval=" + ExprStr(e.CondVal)
+				}
 			case EvSend, EvRecv:
 				s = ExprStr(e.Chan)
 			case EvRange, EvSelect, EvTypeCase:
